@@ -578,3 +578,76 @@ Qed.
 (* from the empty state *)
 Lemma Inv_init : Inv init.
 Proof. split; [constructor|]. intros a. unfold strong_of; cbn. now destruct a. Qed.
+
+(* ---- the view of one thread: result rows and handle kinds do not depend on the counts ---------------------------- *)
+Lemma arc_inc_shape s a m s' ev : arc_inc s a m = Ok (s', ev) -> pool s' = pool s /\ length (arcs s') = length (arcs s).
+Proof.
+  unfold arc_inc. destruct (nth_error (arcs s) a) as [r|]; [|discriminate]. destruct (strong r =? 0); [discriminate|].
+  intros E. inversion E; subst. cbn [pool arcs]. split; [reflexivity|apply set_nth_length].
+Qed.
+Lemma arc_dec_shape s a m s' ev : arc_dec s a m = Ok (s', ev) -> pool s' = pool s /\ length (arcs s') = length (arcs s).
+Proof.
+  unfold arc_dec. destruct (nth_error (arcs s) a) as [r|]; [|discriminate]. destruct (strong r) as [|[|n]]; [discriminate| |];
+    intros E; inversion E; subst; cbn [pool arcs]; (split; [reflexivity|apply set_nth_length]).
+Qed.
+Lemma drop_handle_shape s h s' ev : drop_handle s h = Ok (s', ev) -> pool s' = pool s /\ length (arcs s') = length (arcs s).
+Proof.
+  destruct h as [|[a|] c d|a c d|a m]; cbn [drop_handle drop_arc drop_some]; try (intros E; inversion E; subst; auto; fail).
+  - destruct d; [apply arc_dec_shape|intros E; inversion E; subst; auto].
+  - destruct d; [apply arc_dec_shape|intros E; inversion E; subst; auto].
+  - apply arc_dec_shape.
+Qed.
+
+Definition same_view (s1 s2 : st) : Prop := pool s1 = pool s2 /\ length (arcs s1) = length (arcs s2).
+
+Theorem thread_view o s1 s2 s1' s2' r1 r2 e1 e2 : same_view s1 s2 ->
+  astep s1 o = Ok (s1', r1, e1) -> astep s2 o = Ok (s2', r2, e2) -> r1 = r2 /\ same_view s1' s2'.
+Proof.
+  intros (P & L) E1 E2. unfold same_view.
+  destruct o as [m v|m v|m v|h|h| |h|h|h|h|h|h|h]; cbn [astep] in E1, E2; unfold get_h, newslot, rej, set_h, add_h in *; rewrite <- P in E2.
+  1-3: rewrite <- L in E2; inversion E1; inversion E2; subst; cbn [pool arcs]; rewrite !app_length, P, L; auto.
+  all: try (destruct (nth h (pool s1) HDead) as [|[a|] [c|] d|a c d|a m]; inversion E1; inversion E2; subst; cbn [pool arcs]; rewrite ?P, ?L; auto; fail).
+  - (* AFromNone *) inversion E1; inversion E2; subst; cbn [pool arcs]; rewrite ?P, ?L; auto.
+  - (* AClone *)
+    destruct (nth h (pool s1) HDead) as [|[a|] [c|] d|a c d|a m]; try discriminate;
+      try (inversion E1; inversion E2; subst; cbn [pool arcs]; rewrite ?P, ?L; auto; fail);
+    match type of E1 with context [arc_inc s1 ?a ?c] => destruct (arc_inc s1 a c) as [[t1 v1]| |] eqn:I1; try discriminate;
+           destruct (arc_inc s2 a c) as [[t2 v2]| |] eqn:I2; try discriminate;
+           apply arc_inc_shape in I1; apply arc_inc_shape in I2; destruct I1 as (Q1 & M1), I2 as (Q2 & M2);
+           inversion E1; inversion E2; subst; cbn [pool arcs]; rewrite Q1, Q2, M1, M2, P, L; auto end.
+  - (* AIntoArc *)
+    destruct (nth h (pool s1) HDead) as [|i c d|a c [d|]|a m]; try discriminate; inversion E1; inversion E2; subst; cbn [pool arcs]; rewrite ?P, ?L; auto.
+  - (* ADrop *)
+    destruct (nth h (pool s1) HDead) as [|i c d|a c d|a m] eqn:G; try (inversion E1; inversion E2; subst; auto; fail);
+    match type of E1 with context [drop_handle s1 ?hh] => destruct (drop_handle s1 hh) as [[t1 v1]| |] eqn:D1; try discriminate;
+           destruct (drop_handle s2 hh) as [[t2 v2]| |] eqn:D2; try discriminate;
+           apply drop_handle_shape in D1; apply drop_handle_shape in D2; destruct D1 as (Q1 & M1), D2 as (Q2 & M2);
+           inversion E1; inversion E2; subst; cbn [pool arcs]; rewrite Q1, Q2, M1, M2, P, L; auto end.
+Qed.
+
+Definition kind_h (h : handle) : Z :=
+  match h with HDead => 0 | HArc None _ _ => 1 | HArc (Some _) _ _ => 2 | HSome _ _ _ => 3 | HStd _ _ => 4 end.
+
+Lemma kinds_of_obs s p : kinds_of (flat_map (obs_h s) p) = map kind_h p.
+Proof.
+  induction p as [|h p IH]; [reflexivity|]. cbn [flat_map map].
+  destruct h as [|[a|] c d|a c d|a m]; cbn [obs_h kind_h app]; try (cbn [kinds_of]; now rewrite IH).
+  all: destruct (nth_error (arcs s) a); cbn [app kinds_of]; now rewrite IH.
+Qed.
+
+(* whole histories: two runs of the same history from states with the same handles — whatever the counts are, i.e. whatever
+   other threads did to the shared allocations in between — produce the same result rows and the same handle kinds *)
+Theorem thread_rows ops : forall s1 s2 rows1 f1 rows2 f2, same_view s1 s2 ->
+  arun_raw s1 ops = (rows1, Some f1) -> arun_raw s2 ops = (rows2, Some f2) ->
+  proj_thread rows1 = proj_thread rows2 /\ same_view f1 f2.
+Proof.
+  induction ops as [|o os IH]; intros s1 s2 rows1 f1 rows2 f2 V R1 R2; cbn [arun_raw] in R1, R2.
+  - inversion R1; inversion R2; subst. auto.
+  - destruct (astep s1 o) as [[[t1 r1] e1]| |] eqn:A1; try (inversion R1; fail).
+    destruct (astep s2 o) as [[[t2 r2] e2]| |] eqn:A2; try (inversion R2; fail).
+    destruct (thread_view o s1 s2 t1 t2 r1 r2 e1 e2 V A1 A2) as (-> & V').
+    destruct (arun_raw t1 os) as [rw1 g1] eqn:T1. destruct (arun_raw t2 os) as [rw2 g2] eqn:T2.
+    inversion R1; inversion R2; subst.
+    destruct (IH t1 t2 rw1 f1 rw2 f2 V' T1 T2) as (PR & VF). split; [|exact VF].
+    cbn [proj_thread]. unfold obs. rewrite !kinds_of_obs. destruct V' as (-> & _). now rewrite PR.
+Qed.
